@@ -852,6 +852,201 @@ enum DrainResult {
     HitDeadline, // some entries left, but we're now past the deadline
 }
 
+/// Verification hooks: thin wrappers that expose private items to the out-of-tree Kani harness
+/// crates under `/verif`. `cfg(kani)` is only ever set by `cargo kani`, never by `cargo build`/`test`.
+#[cfg(kani)]
+#[doc(hidden)]
+#[allow(missing_docs)]
+pub mod verif_hooks {
+    use super::*;
+    pub use crate::sink::metrics::MetricRecorder;
+
+    /// producer side of an un-spawned queue
+    pub struct Tx<E>(pub(super) Arc<Inner<E>>);
+
+    /// consumer side of an un-spawned queue: the `Receiver` the background thread would own
+    pub struct Rx<S, E> {
+        pub(super) receiver: Receiver<S, E>,
+        pub(super) flush_rx: Option<std::sync::mpsc::Receiver<FlushSignal>>,
+    }
+
+    /// What `BackgroundQueueBuilder::do_build` does, minus spawning the thread.
+    pub fn unspawned<S: EntryIoStream, E: Entry>(
+        stream: S,
+        capacity: usize,
+        recorder: Option<Box<dyn MetricRecorder>>,
+        flush_interval: Duration,
+        shutdown_timeout: Duration,
+    ) -> (Tx<E>, Rx<S, E>) {
+        let parker = Parker::default();
+        let unparker = parker.unparker().clone();
+        let (flush_queue_sender, flush_queue_receiver) = std::sync::mpsc::channel();
+        let inner = Arc::new(Inner {
+            name: String::new(),
+            queue: ArrayQueue::new(capacity),
+            unparker,
+            flush_queue_sender,
+            recorder,
+        });
+        let receiver = Receiver {
+            metrics_emitted: 0,
+            metric_validation_errors: 0,
+            metric_io_errors: 0,
+            stream,
+            inner: Arc::clone(&inner),
+            flush_interval,
+            shutdown_timeout,
+            shutdown_signal: Arc::new(AtomicBool::new(false)),
+            parker,
+        };
+        (
+            Tx(inner),
+            Rx {
+                receiver,
+                flush_rx: Some(flush_queue_receiver),
+            },
+        )
+    }
+
+    impl<E> Tx<E> {
+        pub fn push(&self, entry: E) {
+            self.0.push(entry)
+        }
+        pub fn queue_len(&self) -> usize {
+            self.0.queue.len()
+        }
+        pub fn clone_handle(&self) -> Self {
+            Tx(Arc::clone(&self.0))
+        }
+        pub fn into_queue(self) -> BackgroundQueue<E> {
+            BackgroundQueue(self.0)
+        }
+    }
+
+    impl<S: EntryIoStream, E: Entry> Rx<S, E> {
+        /// (queue drained?, entries consumed)
+        pub fn drain_until_deadline(&mut self, deadline: Instant) -> (bool, usize) {
+            let (status, n) = self.receiver.drain_until_deadline(deadline);
+            (status == DrainResult::Drained, n)
+        }
+        pub fn consume(&mut self, entry: E) {
+            self.receiver.consume(entry)
+        }
+        /// one iteration of the `drain_until_deadline` loop body: pop one entry and consume it
+        pub fn pop_and_consume_one(&mut self) -> bool {
+            match self.receiver.inner.queue.pop() {
+                Some(entry) => {
+                    self.receiver.consume(entry);
+                    true
+                }
+                None => false,
+            }
+        }
+        pub fn flush_stream(&mut self) {
+            self.receiver.flush_stream()
+        }
+        pub fn shut_down(self) {
+            // the flush-request channel is owned by `run`'s WakerTracker in the real thread; its drop
+            // glue (std::sync::mpsc) is not part of `shut_down` and is kept out of the harness
+            let Rx { receiver, flush_rx } = self;
+            std::mem::forget(flush_rx);
+            receiver.shut_down()
+        }
+        pub fn run(mut self) {
+            let rx = self.flush_rx.take().unwrap();
+            self.receiver.run(rx)
+        }
+        pub fn request_shutdown(&self) {
+            self.receiver.shutdown_signal.store(true, Ordering::Relaxed);
+        }
+        pub fn stream(&mut self) -> &mut S {
+            &mut self.receiver.stream
+        }
+        /// (metrics_emitted, validation_errors, io_errors)
+        pub fn counters(&self) -> (u64, u64, u64) {
+            (
+                self.receiver.metrics_emitted,
+                self.receiver.metric_validation_errors,
+                self.receiver.metric_io_errors,
+            )
+        }
+    }
+
+    // ---- WakerTracker with a model of the flush-request channel -------------------------------
+    //
+    // `std::sync::mpsc` cannot be compiled by Kani 0.68 (its blocking paths reach thread-locals with
+    // destructors), so harnesses stub `Receiver::try_recv` with `model_try_recv`, which pops from this
+    // model queue. `send_flush` is what `Inner::flush_async` does, against the model queue.
+    static mut MODEL_FLUSH_QUEUE: Vec<FlushSignal> = Vec::new();
+
+    pub fn model_try_recv<T>(
+        _rx: &std::sync::mpsc::Receiver<T>,
+    ) -> Result<T, std::sync::mpsc::TryRecvError> {
+        assert!(std::mem::size_of::<T>() == std::mem::size_of::<FlushSignal>());
+        #[allow(static_mut_refs)]
+        unsafe {
+            if MODEL_FLUSH_QUEUE.is_empty() {
+                Err(std::sync::mpsc::TryRecvError::Empty)
+            } else {
+                let sig = MODEL_FLUSH_QUEUE.remove(0);
+                let out = std::mem::transmute_copy::<FlushSignal, T>(&sig);
+                std::mem::forget(sig);
+                Ok(out)
+            }
+        }
+    }
+
+    /// Enqueue a flush request into the model channel; the returned receiver observes completion
+    /// (`try_recv() == Err(Closed)`) exactly like the future returned by `flush_async`.
+    pub fn send_flush() -> tokio::sync::oneshot::Receiver<()> {
+        let (channel, receiver) = tokio::sync::oneshot::channel();
+        #[allow(static_mut_refs)]
+        unsafe {
+            MODEL_FLUSH_QUEUE.push(FlushSignal { channel });
+        }
+        receiver
+    }
+
+    pub struct Tracker {
+        tracker: WakerTracker,
+        _keep_sender: std::sync::mpsc::Sender<FlushSignal>,
+    }
+
+    impl Tracker {
+        pub fn new() -> Self {
+            let (tx, rx) = std::sync::mpsc::channel();
+            Tracker {
+                tracker: WakerTracker::new(rx),
+                _keep_sender: tx,
+            }
+        }
+        pub fn handle_waiting_wakers(
+            &mut self,
+            queue_capacity: impl FnOnce() -> usize,
+            flush_stream: impl FnOnce(),
+            drained: bool,
+            entry_count: usize,
+        ) {
+            let status = if drained {
+                DrainResult::Drained
+            } else {
+                DrainResult::HitDeadline
+            };
+            self.tracker
+                .handle_waiting_wakers(queue_capacity, flush_stream, status, entry_count)
+        }
+        pub fn will_progress_on_drained_queue(&mut self) -> bool {
+            self.tracker.will_progress_on_drained_queue()
+        }
+        pub fn entries_before_wake(&self) -> usize {
+            self.tracker.entries_before_wake
+        }
+        pub fn waiting(&self) -> usize {
+            self.tracker.waiting_wakers.len()
+        }
+    }
+}
+
 #[cfg(test)]
 #[allow(deprecated)]
 mod tests {
